@@ -4,6 +4,7 @@ import XixiKV.Drv.Datatype
 import XixiKV.Drv.Adopt
 import XixiKV.Model.Conc
 import XixiKV.Model.Lockset
+import XixiKV.Drv.Fio
 /-!
 Line-protocol driver of the Lean model: one operation per input line, one canonical result per
 output line — the same lines `harness/cmd/xkv run` consumes and produces for the real engine.
@@ -105,6 +106,7 @@ structure DState where
   df : Option DfSess := none
   ix : XixiKV.ShardIter.Drv.DrvState := XixiKV.ShardIter.Drv.DrvState.init
   dt : XixiKV.Datatype.Drv.DrvState := XixiKV.Datatype.Drv.DrvState.init
+  fio : XixiKV.Fio.Drv.DrvState := XixiKV.Fio.Drv.DrvState.init
 
 def itGet (l : List (String × Iter)) (id : String) : Option Iter := (l.find? (·.1 = id)).map (·.2)
 def itSet (l : List (String × Iter)) (id : String) (it : Iter) : List (String × Iter) :=
@@ -398,6 +400,10 @@ def step (ds : DState) (line : String) : DState × String :=
     else if op = "adoptprefix" then
       match XixiKV.Adopt.Drv.step ds.st (op :: a) with
       | some (st', out) => ({ ds with st := st' }, out)
+      | none => (ds, "?")
+    else if op.startsWith "fio." then
+      match XixiKV.Fio.Drv.step ds.fio (op :: a) with
+      | some (f', out) => ({ ds with fio := f' }, out)
       | none => (ds, "?")
     else if op.startsWith "dt." then
       match XixiKV.Datatype.Drv.step ds.dt (op :: a) with
